@@ -17,7 +17,7 @@ RULE = ('generated sandbox tree root/{cwd,in,out[/sub],other}; module and refere
         'absolute, with ./ or sub/../ components, with/without extension; decoys in every directory: names matching '
         '[sd]<10 digits>.c and near misses (9/11 digits, other prefix letter, upper case, a non-digit, .h/.cc/.c~ extensions, '
         'non-empty directories and symlinks with matching names, dot files); options -c on/off x -f N x -t N x -d gnu-ld x -r x '
-        '-p x -g. Oracle: SHA-256/type/mode snapshot of the whole tree before and after. Created or modified paths must be '
+        '-p x -g; a quarter of the runs fail (truncated module, a body the C writer rejects, missing input). Oracle: SHA-256/type/mode snapshot of the whole tree before and after. Created or modified paths must be '
         'the output file, its header, [sd]<10 digits>.c or "datasegments", all inside dirname(output); without -c nothing is '
         'deleted; with -c the deleted set is a subset of the regular files/symlinks in the output directory that match the '
         'pattern and every such file is deleted or overwritten; symlink targets, input and reference modules never change. '
@@ -114,7 +114,20 @@ def build_case(ch):
     if variant == 'nopthread' and '-t' in opts:
         i = opts.index('-t')
         del opts[i:i + 2]
-    return {'module': wasm.encode(m), 'ref': wasm.encode(ref) if ref is not None else None, 'outdir': outdir, 'form': form,
+    # runs that FAIL: a truncated file, a module the reader accepts but the C writer gives up on (bodies that refer to locals,
+    # labels, functions or globals that do not exist - the translator does not validate), a missing input.  Whatever a failing run
+    # does to the output directory, it is still a translator run: nothing outside the permitted set is created, changed or deleted
+    bad = ch.weighted([(7, None), (1, 'truncated'), (3, 'invalid-body'), (1, 'missing-input')])
+    mbytes = wasm.encode(m)
+    if bad == 'truncated':
+        mbytes = mbytes[:1 + ch.below(len(mbytes) - 1)]
+    elif bad == 'invalid-body':
+        k = ch.below(nf)
+        m.funcs[k] = Func(m.funcs[k].type, [], ch.pick(([('local.get', 7)], [('local.get', 0), ('br', 5)], [('call', 999)], [('global.get', 3)],
+                                                        [('local.get', 0), ('local.set', 9), ('i32.const', 1)], [('i32.add',)],
+                                                        [('local.get', 0), ('i32.const', 1), ('call_indirect', 0)])))
+        mbytes = wasm.encode(m)
+    return {'module': mbytes, 'bad': bad, 'ref': wasm.encode(ref) if ref is not None else None, 'outdir': outdir, 'form': form,
             'base': base, 'decoys': decoys, 'opts': opts, 'inabs': ch.below(2) == 1, 'variant': variant}
 
 
@@ -157,6 +170,8 @@ def materialise(case, root):
     else:
         outpath = os.path.join(root, 'cwd', rel_from_cwd, case['base'])
     inpath = os.path.join(root, 'in', 'm.wasm') if case['inabs'] else os.path.join('..', 'in', 'm.wasm')
+    if case.get('bad') == 'missing-input':
+        inpath = inpath.replace('m.wasm', 'absent.wasm')
     refpath = os.path.join(root, 'in', 'ref.wasm') if case['inabs'] else os.path.join('..', 'in', 'ref.wasm')
     opts = [refpath if o == '@REF@' else o for o in case['opts']]
     return opts + [inpath, outpath], outpath
@@ -191,7 +206,7 @@ def check_case(case, variant=None):
         outdir = '' if outdir == '.' else outdir
         names_a_directory = os.path.isdir(os.path.join(root, outdir, base))
         header = (base.rsplit('.', 1)[0] if '.' in base else base) + '.h'
-        if r.returncode != 0 and not names_a_directory:
+        if r.returncode != 0 and not names_a_directory and not case.get('bad'):
             problems.append('exit status %r: %s' % (r.returncode, r.stderr.decode(errors='replace')[-300:]))
         created = [p for p in after if p not in before]
         deleted = [p for p in before if p not in after]
@@ -277,6 +292,8 @@ def task(wid, seed, params):
             classes.append('output_path_with_trailing_separator')
         if case['ref'] is not None:
             classes.append('reference_module')
+        if case.get('bad'):
+            classes.append('failing_run_' + case['bad'])
         for c in classes:
             res['classes'][c] += 1
         if classes[:3] and any(c in classes for c in ('clean_with_near_misses', 'relative_output_decoys_in_cwd', 'gnu-ld')):
